@@ -178,19 +178,31 @@ Qed.
 
 (* ---------------------------------------------------------------- the length field *)
 
+Lemma len_compact_spec : forall n, len_compact n = (n <? 240).
+Proof. reflexivity. Qed.
+
+(* holds for the pinned `lc < 4095` and for the repaired `lc <= 4095` alike *)
+Lemma len_extended_spec : forall n, (len_extended n = true -> n <= 4095) /\ (n < 4095 -> len_extended n = true)
+  /\ (4096 <= n -> len_extended n = false).
+Proof.
+  intros n. unfold len_extended. repeat split; intros H.
+  - first [apply Z.ltb_lt in H | apply Z.leb_le in H]; lia.
+  - first [apply Z.ltb_lt | apply Z.leb_le]; lia.
+  - first [apply Z.ltb_ge | apply Z.leb_gt]; lia.
+Qed.
+
 Lemma enc_len_cases : forall body,
   let n := Z.of_nat (length body) in
   (n < 240 -> enc_len body = Some (n :: body)) /\
   (240 <= n < 4095 -> enc_len body = Some ((240 + n / 256) :: n mod 256 :: body)) /\
-  (4095 <= n -> enc_len body = None).
+  (4096 <= n -> enc_len body = None).
 Proof.
-  intros body n. unfold enc_len, len_compact, len_extended, LEN_EXT_VALUE. fold n.
+  intros body n. unfold enc_len, LEN_EXT_VALUE. fold n. rewrite len_compact_spec.
+  destruct (len_extended_spec n) as (E1 & E2 & E3).
   repeat split; intros H.
   - destruct (n <? 240) eqn:E; [reflexivity|apply Z.ltb_ge in E; lia].
-  - destruct (n <? 240) eqn:E; [apply Z.ltb_lt in E; lia|].
-    destruct (n <? 4095) eqn:E2; [reflexivity|apply Z.ltb_ge in E2; lia].
-  - destruct (n <? 240) eqn:E; [apply Z.ltb_lt in E; lia|].
-    destruct (n <? 4095) eqn:E2; [apply Z.ltb_lt in E2; lia|reflexivity].
+  - destruct (n <? 240) eqn:E; [apply Z.ltb_lt in E; lia|]. rewrite E2 by lia. reflexivity.
+  - destruct (n <? 240) eqn:E; [apply Z.ltb_lt in E; lia|]. rewrite E3 by lia. reflexivity.
 Qed.
 
 Lemma enc_len_is_rfc : forall body, Z.of_nat (length body) <> 4095 ->
@@ -204,6 +216,25 @@ Proof.
     + apply Z.ltb_ge in E2. rewrite C by lia. reflexivity.
 Qed.
 
+(* PRE-FIX ONLY: enc_len_4095_refused below and decode_long_refuted further down hold on the pinned tree
+   (`lc < FLOW_LENGTH_EXTENDED_MAX`, FLOW_LENGTH_EXTENDED_SHIFT = 16).  Once /repo is repaired
+   (`<=`, shift 8) replace them by (checked against the repaired constants):
+
+   Lemma enc_len_4095_sent :
+     valid_rule false rule4095 = true /\ Z.of_nat (length (enc_body false rule4095)) = 4095 /\
+     enc_flow false rule4095 = Some ([255; 255] ++ enc_body false rule4095).
+   Proof. vm_compute. auto. Qed.
+   Lemma enc_len_full : forall body,
+     enc_len body = option_map (fun h => h ++ body) (ref_length (Z.of_nat (length body))).
+   Proof.
+     intros body. destruct (Z.eq_dec (Z.of_nat (length body)) 4095) as [E|E]; [|apply enc_len_is_rfc; exact E].
+     unfold enc_len, ref_length, len_compact, len_extended, LEN_EXT_VALUE. rewrite E. reflexivity.
+   Qed.
+   Lemma decode_long_agrees :
+     llen nlri257 = 259 /\ exists mr, dec_flow false false nlri257 = DOk mr [] /\
+     ref_flow false false nlri257 = ROk (abs_rule mr) [].
+   Proof. split; [reflexivity|]. eexists; split; vm_compute; reflexivity. Qed.
+   Every other lemma of this file compiles unchanged before and after the repair. *)
 Definition rule4095 : mrule := mkMRule [] [MOps 5 (repeat (0, 1, 80) 2047)].
 Lemma enc_len_4095_refused :
   valid_rule false rule4095 = true /\ Z.of_nat (length (enc_body false rule4095)) = 4095 /\
@@ -365,3 +396,376 @@ Proof.
       destruct (IH v6 l2 cs0 t ltac:(subst l2; apply bytes_ok_skipn; assumption) PC Hz) as (cs' & RC & Tys).
       rewrite RC. cbn [ccons]. eexists; split; [reflexivity|]. cbn [map comp_ty mty]. congruence.
 Qed.
+
+Lemma bytes_ok_firstn : forall n l, bytes_ok l -> bytes_ok (firstn n l).
+Proof.
+  induction n; intros l H; [constructor|]. destruct l; [constructor|]. cbn [firstn].
+  inversion H; subst. constructor; [assumption|]. apply IHn. assumption.
+Qed.
+
+Definition ref_tail (ordered v6 vpn : bool) (len : Z) (d : list Z) : rres :=
+  match take len d with
+  | None => RErr ELength []
+  | Some (body, over) =>
+    match (if vpn then take 8 body else Some ([], body)) with
+    | None => RErr ERd []
+    | Some (rd, cs) =>
+      match ref_comps (length cs) ordered v6 0 cs with
+      | COk comps => ROk (mkRule rd comps) over
+      | CErr e b => RErr e b
+      end
+    end
+  end.
+
+Lemma ref_flow_gen_unfold : forall ordered v6 vpn l0 d1,
+  ref_flow_gen ordered v6 vpn (l0 :: d1) =
+  match (if l0 <? 240 then Some (l0, d1)
+         else match d1 with [] => None | l1 :: d2 => Some ((l0 - 240) * 256 + l1, d2) end) with
+  | None => RErr ELength []
+  | Some (len, d) => ref_tail ordered v6 vpn len d
+  end.
+Proof. reflexivity. Qed.
+
+Lemma dec_body_sound : forall v6 vpn len d mr over,
+  0 <= len -> bytes_ok d ->
+  dec_body v6 vpn len d = DOk mr over ->
+  forallb offz (m_comps mr) = true ->
+  (vpn = true -> length (m_rd mr) = 8%nat) ->
+  exists r, ref_tail false v6 vpn len d = ROk r over /\ r_rd r = m_rd mr /\
+            map comp_ty (r_comps r) = map mty (m_comps mr).
+Proof.
+  intros v6 vpn len d mr over Hlen Hb H Hz Hrd.
+  unfold dec_body in H. destruct (llen d <? len) eqn:E; [discriminate|]. apply Z.ltb_ge in E.
+  unfold ref_tail. rewrite take_spec by assumption.
+  replace (len <=? Z.of_nat (length d)) with true by (symmetry; apply Z.leb_le; exact E).
+  unfold RD_LEN in H.
+  destruct vpn; cbn [andb] in H.
+  - destruct (8 <=? llen (ltake len d)) eqn:E8.
+    + apply Z.leb_le in E8.
+      destruct (parse_comps (length (ldrop 8 (ltake len d))) v6 (ldrop 8 (ltake len d))) as [cs|] eqn:PC; [|discriminate].
+      inversion H; subst mr over; clear H. cbn [m_comps m_rd] in *.
+      rewrite take_spec by lia.
+      replace (8 <=? Z.of_nat (length (ltake len d))) with true by (symmetry; apply Z.leb_le; exact E8).
+      assert (Hbc : bytes_ok (ldrop 8 (ltake len d))) by (unfold ldrop, ltake; apply bytes_ok_skipn, bytes_ok_firstn; exact Hb).
+      destruct (parse_ref_comps _ v6 _ cs 0 Hbc PC Hz) as (cs' & RC & Tys).
+      rewrite RC. eexists; split; [reflexivity|]. split; [reflexivity|exact Tys].
+    + destruct (parse_comps (length (ltake len d)) v6 (ltake len d)) as [cs|] eqn:PC; [|discriminate].
+      inversion H; subst mr over. cbn [m_rd] in Hrd. specialize (Hrd eq_refl). discriminate.
+  - destruct (parse_comps (length (ltake len d)) v6 (ltake len d)) as [cs|] eqn:PC; [|discriminate].
+    inversion H; subst mr over; clear H. cbn [m_comps m_rd] in *.
+    assert (Hbc : bytes_ok (ltake len d)) by (unfold ltake; apply bytes_ok_firstn; exact Hb).
+    destruct (parse_ref_comps _ v6 _ cs 0 Hbc PC Hz) as (cs' & RC & Tys).
+    rewrite RC. eexists; split; [reflexivity|]. split; [reflexivity|exact Tys].
+Qed.
+
+(* Soundness of the decoder: on any byte string a BGP message can hold, a delivered rule (IPv6
+   prefixes without offset, route distinguisher present for flow-vpn) means the NLRI passes the RFC
+   framing walk with the same length, RD, component types and left-over octets. *)
+Lemma dec_sound : forall v6 vpn b mr over,
+  bytes_ok b -> llen b < 65536 ->
+  dec_flow v6 vpn b = DOk mr over ->
+  forallb offz (m_comps mr) = true ->
+  (vpn = true -> length (m_rd mr) = 8%nat) ->
+  exists r, ref_scan v6 vpn b = ROk r over /\ r_rd r = m_rd mr /\
+            map comp_ty (r_comps r) = map mty (m_comps mr).
+Proof.
+  intros v6 vpn b mr over Hb Hl H Hz Hrd.
+  destruct b as [|l0 d1]; [discriminate|].
+  inversion Hb as [|? ? H0 Hb1]; subst.
+  unfold ref_scan. rewrite ref_flow_gen_unfold. cbn [dec_flow] in H.
+  unfold LEN_EXT_VALUE in H.
+  (* the shift is 16 in the pinned tree (only 240..255 decodable) and 8 once repaired: both proved *)
+  remember (2 ^ LEN_EXT_SHIFT) as sh eqn:Hsh.
+  assert (Hshc : sh = 65536 \/ sh = 256) by (subst sh; vm_compute; auto).
+  destruct (l0 / 16 * 16 =? 240) eqn:E.
+  - apply Z.eqb_eq in E. destruct d1 as [|e d2]; [discriminate|].
+    inversion Hb1 as [|? ? He Hb2]; subst.
+    assert (Hge : 240 <= l0) by (Z.div_mod_to_equations; lia).
+    replace (l0 <? 240) with false by (symmetry; apply Z.ltb_ge; lia).
+    assert (Hlen : l0 mod 16 * 2 ^ LEN_EXT_SHIFT + e <= llen d2).
+    { unfold dec_body in H. destruct (llen d2 <? l0 mod 16 * 2 ^ LEN_EXT_SHIFT + e) eqn:E2; [discriminate|]. apply Z.ltb_ge in E2. exact E2. }
+    unfold llen in Hlen, Hl. cbn [length] in Hl. rewrite !Nat2Z.inj_succ in Hl.
+    assert (Heq : l0 mod 16 * 2 ^ LEN_EXT_SHIFT + e = (l0 - 240) * 256 + e).
+    { destruct Hshc as [Hs|Hs]; rewrite Hs in *.
+      - assert (Hm : l0 mod 16 = 0) by (Z.div_mod_to_equations; lia).
+        assert (Hl0 : l0 = 240) by (Z.div_mod_to_equations; lia). subst l0. reflexivity.
+      - assert (Hm : l0 mod 16 = l0 - 240) by (Z.div_mod_to_equations; lia). rewrite Hm. reflexivity. }
+    rewrite Heq in H.
+    apply (dec_body_sound v6 vpn ((l0 - 240) * 256 + e) d2 mr over); auto; lia.
+  - apply Z.eqb_neq in E.
+    assert (Hlt : l0 < 240) by (Z.div_mod_to_equations; lia).
+    replace (l0 <? 240) with true by (symmetry; apply Z.ltb_lt; lia).
+    apply (dec_body_sound v6 vpn l0 d1 mr over); auto; lia.
+Qed.
+
+Lemma never_broader : forall v6 vpn b e before mr over,
+  bytes_ok b -> llen b < 65536 ->
+  ref_scan v6 vpn b = RErr e before ->
+  forallb offz (m_comps mr) = true ->
+  (vpn = true -> length (m_rd mr) = 8%nat) ->
+  dec_flow v6 vpn b <> DOk mr over.
+Proof.
+  intros v6 vpn b e before mr over Hb Hl Hr Hz Hrd Hd.
+  destruct (dec_sound v6 vpn b mr over Hb Hl Hd Hz Hrd) as (r & R & _). congruence.
+Qed.
+
+(* IPv4, plain flow: no side condition at all *)
+Lemma never_broader_v4 : forall b e before mr over,
+  bytes_ok b -> llen b < 65536 ->
+  ref_scan false false b = RErr e before -> dec_flow false false b <> DOk mr over.
+Proof.
+  intros b e before mr over Hb Hl Hr Hd.
+  assert (Hz : forallb offz (m_comps mr) = true).
+  { (* IPv4 prefixes are decoded with offset 0 *)
+    clear Hr. destruct b as [|l0 d1]; [discriminate|]. cbn [dec_flow] in Hd.
+    assert (G : forall fuel l cs, parse_comps fuel false l = Some cs -> forallb offz cs = true).
+    { induction fuel as [|f IH]; intros l cs Hp.
+      - destruct l; [|discriminate]. inversion Hp. reflexivity.
+      - destruct l as [|t l1]; [inversion Hp; reflexivity|]. cbn [parse_comps] in Hp.
+        destruct (kind false t =? 0); [discriminate|].
+        destruct (kind false t =? 1).
+        + destruct (parse_prefix false t l1) as [[c l2]|] eqn:PP; [|discriminate].
+          destruct (parse_comps f false l2) as [cs0|] eqn:PC; [|discriminate].
+          inversion Hp; subst. cbn [forallb]. rewrite (IH _ _ PC).
+          unfold parse_prefix in PP. destruct l1 as [|m l1']; [discriminate|].
+          destruct (32 <? m); [discriminate|]. destruct (llen (m :: l1') <? size m + 1); [discriminate|].
+          inversion PP; subst. reflexivity.
+        + destruct (parse_ops (length l1) l1) as [[os l2]|]; [|discriminate].
+          destruct (parse_comps f false l2) as [cs0|] eqn:PC; [|discriminate].
+          inversion Hp; subst. cbn [forallb offz andb]. apply (IH _ _ PC). }
+    assert (G2 : forall len d, dec_body false false len d = DOk mr over -> forallb offz (m_comps mr) = true).
+    { intros len d Hb2. unfold dec_body in Hb2. destruct (llen d <? len); [discriminate|]. cbn [andb] in Hb2.
+      destruct (parse_comps (length (ltake len d)) false (ltake len d)) as [cs|] eqn:PC; [|discriminate].
+      inversion Hb2; subst. cbn [m_comps]. apply (G _ _ _ PC). }
+    destruct (l0 / 16 * 16 =? LEN_EXT_VALUE).
+    - destruct d1 as [|e0 d2]; [discriminate|]. apply (G2 _ _ Hd).
+    - apply (G2 _ _ Hd). }
+  apply (never_broader false false b e before mr over Hb Hl Hr Hz); [discriminate|exact Hd].
+Qed.
+
+(* ---------------------------------------------------------------- component order *)
+From Coq Require Import Sorting.Sorted.
+
+Lemma group_ty : forall cs t k w c, In c (group cs (t, (k, w))) -> mty c = t.
+Proof.
+  intros cs t k w c H. unfold group in H. destruct (k =? 1).
+  - unfold pick_pfx in H. apply filter_In in H. destruct H as [_ H]. destruct c; [|discriminate].
+    apply Z.eqb_eq in H. exact H.
+  - destruct (pick_ops t cs); [destruct H|]. destruct H as [<-|[]]. reflexivity.
+Qed.
+
+Lemma flat_group_ty : forall cs tb c, In c (flat_map (group cs) tb) -> In (mty c) (map fst tb).
+Proof.
+  intros cs tb c H. apply in_flat_map in H. destruct H as ([t [k w]] & Hin & Hc).
+  apply group_ty in Hc. subst t. apply in_map_iff. exists (mty c, (k, w)). split; [reflexivity|exact Hin].
+Qed.
+
+Lemma sorted_app_const : forall (t : Z) (l1 l2 : list Z),
+  (forall x, In x l1 -> x = t) -> (forall y, In y l2 -> t < y) -> StronglySorted Z.le l2 ->
+  StronglySorted Z.le (l1 ++ l2).
+Proof.
+  induction l1 as [|a l1 IH]; intros l2 H1 H2 S; [exact S|].
+  cbn [app]. constructor.
+  - apply IH; auto. intros x Hx. apply H1. right. exact Hx.
+  - apply Forall_forall. intros y Hy. apply in_app_or in Hy.
+    rewrite (H1 a (or_introl eq_refl)).
+    destruct Hy as [Hy|Hy]; [rewrite (H1 y (or_intror Hy)); lia|specialize (H2 y Hy); lia].
+Qed.
+
+Lemma canon_sorted_gen : forall cs tb, StronglySorted Z.lt (map fst tb) ->
+  StronglySorted Z.le (map mty (flat_map (group cs) tb)).
+Proof.
+  induction tb as [|[t [k w]] tb IH]; intros S; [constructor|].
+  cbn [flat_map map]. rewrite map_app. cbn [map fst] in S. inversion S as [|? ? S' F]; subst.
+  apply sorted_app_const with (t := t).
+  - intros x Hx. apply in_map_iff in Hx. destruct Hx as (c & <- & Hc). apply (group_ty _ _ _ _ _ Hc).
+  - intros y Hy. apply in_map_iff in Hy. destruct Hy as (c & <- & Hc).
+    apply flat_group_ty in Hc. rewrite Forall_forall in F. apply F. exact Hc.
+  - apply IH. exact S'.
+Qed.
+
+Lemma table_sorted : forall v6, StronglySorted Z.lt (map fst (table v6)).
+Proof.
+  destruct v6; unfold table, table6, table4; cbn [map fst];
+    repeat (constructor; [|repeat (constructor; try lia)]); constructor.
+Qed.
+
+Lemma canon_sorted : forall v6 cs, StronglySorted Z.le (map mty (canon v6 cs)).
+Proof. intros. unfold canon. apply canon_sorted_gen. apply table_sorted. Qed.
+
+(* each operator type appears at most once: a group holds at most one operator component *)
+Lemma group_ops_once : forall cs e, (length (filter (fun c => match c with MOps _ _ => true | _ => false end) (group cs e)) <= 1)%nat.
+Proof.
+  intros cs [t [k w]]. unfold group. destruct (k =? 1).
+  - unfold pick_pfx. induction cs as [|c cs IH]; [cbn; lia|].
+    cbn [filter]. destruct c as [t' m o a|t' l]; [|exact IH].
+    destruct (t' =? t); [cbn [filter]; exact IH|exact IH].
+  - destruct (pick_ops t cs); cbn; lia.
+Qed.
+
+(* ---------------------------------------------------------------- witnesses of the defects *)
+
+Definition nlri257 : list Z := [241; 1; 5] ++ flat_map (fun _ => [1; 80]) (seq 0 127) ++ [129; 80].
+Lemma decode_long_refuted :
+  llen nlri257 = 259 /\ (exists r, ref_flow false false nlri257 = ROk r []) /\ dec_flow false false nlri257 = DRaise.
+Proof. split; [reflexivity|]. split; [eexists; vm_compute; reflexivity|vm_compute; reflexivity]. Qed.
+
+(* destination a500::/8/1 as RFC 8956 writes it: 7 pattern bits 0100101, one octet 0x4a *)
+Lemma decode_offset_refuted :
+  ref_flow true false [4; 1; 8; 1; 74] = ROk (mkRule [] [CPfx 1 8 1 37]) [] /\
+  exists mr, dec_flow true false [4; 1; 8; 1; 74] = DOk mr [] /\ abs_rule mr = mkRule [] [CPfx 1 8 1 74].
+Proof. split; [vm_compute; reflexivity|]. eexists; split; vm_compute; reflexivity. Qed.
+
+Definition rule_off : mrule := mkMRule [] [MPfx 1 8 1 [165;0;0;0;0;0;0;0;0;0;0;0;0;0;0;0]].
+Lemma roundtrip_offset_refuted :
+  enc_flow true rule_off = Some [4; 1; 8; 1; 165] /\
+  normal true rule_off = mkRule [] [CPfx 1 8 1 37] /\
+  ref_flow true false [4; 1; 8; 1; 165] = ROk (mkRule [] [CPfx 1 8 1 82]) [].
+Proof. repeat split; vm_compute; reflexivity. Qed.
+
+(* flow-vpn NLRI of 3 octets: no room for a route distinguisher, delivered as `protocol =6` *)
+Lemma short_rd_delivered :
+  ref_flow true true [3; 3; 129; 6] = RErr ERd [] /\
+  dec_flow true true [3; 3; 129; 6] = DOk (mkMRule [] [MOps 3 [(0, 1, 6)]]) [].
+Proof. split; vm_compute; reflexivity. Qed.
+
+(* two `source` lines: the type is written twice, which RFC 8955 4.2 does not allow *)
+Definition rule_dup : mrule := mkMRule [] [MPfx 2 8 0 [10;0;0;0]; MPfx 2 8 0 [11;0;0;0]].
+Lemma duplicate_prefix_refuted :
+  enc_flow false rule_dup = Some [6; 2; 8; 10; 2; 8; 11] /\
+  ref_flow false false [6; 2; 8; 10; 2; 8; 11] = RErr EOrder [CPfx 2 8 0 10].
+Proof. split; vm_compute; reflexivity. Qed.
+
+(* ---------------------------------------------------------------- encode then RFC-decode *)
+
+Definition rt_ok (v6 : bool) (c : mcomp) : bool :=
+  match c with
+  | MPfx t m off addr =>
+    ((t =? 1) || (t =? 2)) && (off =? 0) && (0 <=? m) && (m <=? (if v6 then 128 else 32)) &&
+    (size m <=? llen addr)
+  | MOps t ops =>
+    (3 <=? t) && (t <=? (if v6 then 13 else 12)) && negb (match ops with [] => true | _ => false end) &&
+    forallb (valid_op (maxw v6 t)) ops
+  end.
+
+Fixpoint strict_asc (last : Z) (l : list Z) : bool :=
+  match l with [] => true | t :: l' => (last <? t) && strict_asc t l' end.
+
+Lemma enc_ops_length : forall w ops, (length ops <= length (enc_ops w ops))%nat.
+Proof.
+  induction ops as [|[[a nb] v] ops IH]; [cbn; lia|].
+  destruct ops as [|o2 ops'].
+  - cbn [enc_ops]. rewrite enc_op_shape. cbn [length]. lia.
+  - change (enc_ops w ((a, nb, v) :: o2 :: ops')) with (enc_op false w (a, nb, v) ++ enc_ops w (o2 :: ops')).
+    rewrite app_length, enc_op_shape. cbn [length] in *. lia.
+Qed.
+
+Lemma firstn_len_size : forall m (addr : list Z), 0 <= size m <= llen addr ->
+  Z.of_nat (length (firstn (Z.to_nat (size m)) addr)) = size m.
+Proof. intros m addr H. unfold llen in H. rewrite firstn_length, Nat.min_l by lia. lia. Qed.
+
+Lemma ref_comps_enc : forall cs v6 last fuel,
+  forallb (rt_ok v6) cs = true -> strict_asc last (map mty cs) = true -> 0 <= last ->
+  (length cs <= fuel)%nat ->
+  ref_comps fuel true v6 last (flat_map (enc_comp v6) cs) = COk (map abs_comp cs).
+Proof.
+  induction cs as [|c cs IH]; intros v6 last fuel Hok Hasc Hlast Hf; [destruct fuel; reflexivity|].
+  cbn [forallb] in Hok. apply andb_true_iff in Hok. destruct Hok as [Hc Hok].
+  cbn [map strict_asc] in Hasc. apply andb_true_iff in Hasc. destruct Hasc as [Hlt Hasc]. apply Z.ltb_lt in Hlt.
+  destruct fuel as [|f]; [cbn in Hf; lia|]. cbn [length] in Hf.
+  cbn [flat_map map].
+  destruct c as [t m off addr|t ops]; cbn [rt_ok mty] in *.
+  - repeat (apply andb_true_iff in Hc; destruct Hc as [Hc ?]).
+    repeat match goal with
+           | H : (_ <=? _) = true |- _ => apply Z.leb_le in H
+           | H : (_ =? _) = true |- _ => apply Z.eqb_eq in H end.
+    subst off.
+    assert (Ht : t = 1 \/ t = 2) by (apply orb_true_iff in Hc; destruct Hc as [Hc|Hc]; apply Z.eqb_eq in Hc; auto).
+    assert (Hm128 : m <= 128) by (destruct v6; lia).
+    destruct (size_eq m ltac:(lia)) as [Hs Hs0].
+    assert (Hdef : defined_type v6 t = true) by (unfold defined_type; destruct v6; destruct Ht; subst t; reflexivity).
+    assert (Ht2 : (t <=? 2) = true) by (apply Z.leb_le; lia).
+    assert (Hord : (t <=? last) = false) by (apply Z.leb_gt; lia).
+    assert (Hfl := firstn_len_size m addr ltac:(lia)).
+    destruct v6; cbn [enc_comp app ref_comps]; rewrite Hdef, Hord, Ht2; cbn [negb andb].
+    + cbn [ref_prefix].
+      replace (((m =? 0) && (0 =? 0)) || ((0 <? m) && (m <=? 128))) with true.
+      2:{ symmetry. destruct (m =? 0) eqn:E0; [reflexivity|]. apply Z.eqb_neq in E0. cbn [andb orb].
+          apply andb_true_iff; split; [apply Z.ltb_lt|apply Z.leb_le]; lia. }
+      replace (m - 0 + 7) with (m + 7) by lia. rewrite <- Hs.
+      rewrite take_app by (symmetry; exact Hfl).
+      rewrite IH by (auto; lia). cbn [ccons abs_comp]. unfold pattern, ltake. cbn [Z.eqb].
+      replace (m - 0) with m by lia. reflexivity.
+    + cbn [ref_prefix]. replace (m <=? 32) with true by (symmetry; apply Z.leb_le; lia).
+      rewrite <- Hs. rewrite take_app by (symmetry; exact Hfl).
+      rewrite IH by (auto; lia). cbn [ccons abs_comp]. unfold pattern, ltake. cbn [Z.eqb]. reflexivity.
+  - repeat (apply andb_true_iff in Hc; destruct Hc as [Hc ?]).
+    repeat match goal with
+           | H : (_ <=? _) = true |- _ => apply Z.leb_le in H end.
+    assert (Hne : ops <> []) by (destruct ops; [discriminate|congruence]).
+    assert (Hdef : defined_type v6 t = true)
+      by (unfold defined_type; apply andb_true_iff; split; apply Z.leb_le; lia).
+    assert (Ht2 : (t <=? 2) = false) by (apply Z.leb_gt; lia).
+    assert (Hord : (t <=? last) = false) by (apply Z.leb_gt; lia).
+    cbn [enc_comp app ref_comps]. rewrite Hdef, Hord, Ht2. cbn [negb andb].
+    rewrite ref_ops_enc; auto.
+    + rewrite IH by (auto; lia). reflexivity.
+    + rewrite app_length. pose proof (enc_ops_length (maxw v6 t) ops). lia.
+Qed.
+
+Lemma flat_enc_length : forall v6 cs, (length cs <= length (flat_map (enc_comp v6) cs))%nat.
+Proof.
+  induction cs as [|c cs IH]; [cbn; lia|]. cbn [flat_map]. rewrite app_length.
+  assert (1 <= length (enc_comp v6 c))%nat by (destruct c; cbn [enc_comp]; destruct v6; cbn [length]; lia).
+  cbn [length]. lia.
+Qed.
+
+(* C16_roundtrip on the faithful model needs: IPv6 prefixes without offset, at most one prefix per
+   type (strict order), legal masks, a body shorter than 4095 (enc_flow = Some) *)
+Lemma roundtrip_partial : forall v6 r b,
+  forallb (rt_ok v6) (canon v6 (m_comps r)) = true ->
+  strict_asc 0 (map mty (canon v6 (m_comps r))) = true ->
+  (m_rd r = [] \/ length (m_rd r) = 8%nat) ->
+  enc_flow v6 r = Some b ->
+  ref_flow v6 (negb (match m_rd r with [] => true | _ => false end)) b = ROk (normal v6 r) [].
+Proof.
+  intros v6 r b Hok Hasc Hrd He.
+  unfold enc_flow in He. destruct (valid_rule v6 r); [|discriminate].
+  set (body := enc_body v6 r) in *.
+  assert (Htail : ref_tail true v6 (negb (match m_rd r with [] => true | _ => false end)) (Z.of_nat (length body)) body
+                  = ROk (normal v6 r) []).
+  { unfold ref_tail.
+    pose proof (take_app body [] (Z.of_nat (length body)) eq_refl) as T. rewrite app_nil_r in T. rewrite T. clear T.
+    subst body. unfold enc_body.
+    assert (Hc : ref_comps (length (flat_map (enc_comp v6) (canon v6 (m_comps r)))) true v6 0
+                   (flat_map (enc_comp v6) (canon v6 (m_comps r))) = COk (map abs_comp (canon v6 (m_comps r)))).
+    { apply ref_comps_enc; auto; [lia|apply flat_enc_length]. }
+    destruct Hrd as [Hr|Hr].
+    - rewrite Hr. cbn [negb app]. rewrite Hc.
+      unfold normal, abs_rule, view. cbn [m_rd m_comps]. rewrite Hr. reflexivity.
+    - destruct (m_rd r) as [|x rd'] eqn:Erd; [discriminate|]. cbn [negb].
+      rewrite take_app by (rewrite Hr; reflexivity). rewrite Hc.
+      unfold normal, abs_rule, view. cbn [m_rd m_comps]. rewrite Erd. reflexivity. }
+  unfold ref_flow. unfold enc_len in He. fold body in He. rewrite len_compact_spec in He.
+  destruct (Z.of_nat (length body) <? 240) eqn:E1.
+  - apply Z.ltb_lt in E1.
+    assert (Hb' : b = Z.of_nat (length body) :: body) by congruence. subst b. rewrite ref_flow_gen_unfold.
+    replace (Z.of_nat (length body) <? 240) with true by (symmetry; apply Z.ltb_lt; lia). exact Htail.
+  - apply Z.ltb_ge in E1. destruct (len_extended (Z.of_nat (length body))) eqn:E2; [|discriminate].
+    apply (proj1 (len_extended_spec _)) in E2. unfold LEN_EXT_VALUE in He.
+    assert (Hb' : b = (240 + Z.of_nat (length body) / 256) :: Z.of_nat (length body) mod 256 :: body) by congruence.
+    subst b. rewrite ref_flow_gen_unfold.
+    replace (240 + Z.of_nat (length body) / 256 <? 240) with false
+      by (symmetry; apply Z.ltb_ge; Z.div_mod_to_equations; lia).
+    replace ((240 + Z.of_nat (length body) / 256 - 240) * 256 + Z.of_nat (length body) mod 256)
+      with (Z.of_nat (length body)) by (Z.div_mod_to_equations; lia).
+    exact Htail.
+Qed.
+
+Definition rule_ex : mrule :=
+  mkMRule [] [MOps 5 [(0, 1, 80); (0, 2, 1024); (1, 4, 2000)]; MPfx 2 32 0 [10; 0; 0; 1]; MOps 3 [(0, 1, 6)]; MOps 5 [(0, 1, 443)]].
+Lemma roundtrip_example :
+  forallb (rt_ok false) (canon false (m_comps rule_ex)) = true /\
+  strict_asc 0 (map mty (canon false (m_comps rule_ex))) = true /\
+  enc_flow false rule_ex = Some [21; 2; 32; 10; 0; 0; 1; 3; 129; 6; 5; 1; 80; 18; 4; 0; 84; 7; 208; 145; 1; 187].
+Proof. repeat split; vm_compute; reflexivity. Qed.
